@@ -219,3 +219,125 @@ Proof.
         eapply het01; eauto.
       * eapply decode_PS_unphased; [cbn; reflexivity|exact Hgsne|cbn; rewrite unph_map; reflexivity].
 Qed.
+
+(* ------------------------------------------------------------------ records and files, repaired writer *)
+(* what pysam guarantees about a parsed call: a GT value has at least one allele; no GT key, no phase *)
+Definition wf_call (c : call) : Prop := gt c <> Some [] /\ (gt c = None -> phased c = false).
+Definition wf_input (input : list vrec) : Prop := Forall (fun r => Forall wf_call (calls r)) input.
+Definition plan_diploid (plan : list (token * list target)) : Prop :=
+  Forall (fun e => Forall (fun t => Forall (fun s => length (snd s) = 2%nat) (t_super t)) (snd e)) plan.
+
+Lemma fix_rm_no_stmt tg k c0 :
+  wf_call c0 -> decode_HP fix_guard (fix_rm tg c0) = Ok None /\ decode_PS k (fix_rm tg c0) = Ok None.
+Proof.
+  intros [Hne Hnone]. destruct (gt c0) as [l|] eqn:Eg.
+  - destruct (fix_rm_facts tg c0 l Eg) as [_ [_ [Fhp [Fph [g [Fg [Fl _]]]]]]].
+    split; [apply decode_HP_cleared; exact Fhp|].
+    apply (decode_PS_unphased k _ g); [exact Fg| |].
+    + intros ->. destruct l; [congruence|discriminate].
+    + rewrite Fph. unfold unph. rewrite Fl. reflexivity.
+  - unfold fix_rm. destruct (clear_hp_facts (set_ps (unphase_call c0) None)) as [_ [G [P [_ [_ M]]]]].
+    split.
+    + apply decode_HP_cleared. cbn [hp set_pq]. unfold clear_hp.
+      destruct (hp (set_ps (unphase_call c0) None)) eqn:E; cbn; rewrite ?E; auto.
+    + unfold decode_PS. cbn [phased set_pq]. rewrite P. cbn [phased set_ps].
+      unfold unphase_call. rewrite Eg, (Hnone eq_refl). reflexivity.
+Qed.
+
+Lemma target_of_in ts t : NoDup (map t_sample ts) -> In t ts -> target_of ts (t_sample t) = Some t.
+Proof.
+  induction ts as [|u ts IH]; intros ND Hin; [contradiction|].
+  cbn [map] in ND. inversion ND as [|? ? Hn ND']. subst. rewrite target_of_cons.
+  destruct Hin as [->|Hin].
+  - rewrite Nat.eqb_refl. reflexivity.
+  - destruct (Nat.eqb (t_sample u) (t_sample t)) eqn:E; [|apply IH; assumption].
+    apply Nat.eqb_eq in E. exfalso. apply Hn. rewrite E. apply in_map. exact Hin.
+Qed.
+
+Lemma stmts_exact_no_stale tg k c e :
+  stmts_exact tg c e -> (tg = TagPS -> e <> None -> k = true) -> call_no_stale fix_guard k c e = true.
+Proof.
+  intros H Hk. unfold call_no_stale.
+  assert (Hm : forall q, stmt_ok (Ok (lift q e)) e = true).
+  { intros q. destruct e as [[b ph]|]; cbn; [|reflexivity].
+    rewrite Z.eqb_refl. cbn. apply all2_refl. intros; apply allele_eqb_refl. }
+  destruct tg; cbn in H; destruct H as [H1 H2].
+  - rewrite H2. cbn [stmt_ok]. cbn.
+    destruct e as [[b ph]|] eqn:Ee.
+    + rewrite (Hk eq_refl) by discriminate. rewrite H1. apply Hm.
+    + cbn in H1. unfold decode_PS in *. destruct (negb (phased c)); [reflexivity|].
+      destruct (gt c) as [[|a t]|]; try discriminate.
+      destruct (forallb (allele_eqb a) t); [reflexivity|discriminate].
+  - rewrite H1, Hm. cbn.
+    unfold decode_PS in *. destruct (negb (phased c)); [reflexivity|].
+    destruct (gt c) as [[|a t]|]; try discriminate.
+    destruct (forallb (allele_eqb a) t); [reflexivity|discriminate].
+Qed.
+
+Lemma steps_no_stale cf ts prev run o :
+  mav cf = false -> NoDup (map t_sample ts) ->
+  Forall (fun t => Forall (fun s => length (snd s) = 2%nat) (t_super t)) ts ->
+  Forall (fun r => Forall wf_call (calls r)) run ->
+  steps cf fix_rules ts prev run = Ok o ->
+  run_no_stale fix_guard cf ts prev run o = true.
+Proof.
+  intros Hmav ND Hdip. revert prev o. induction run as [|r run IH]; intros prev o Hwf H; cbn [steps] in H.
+  - inversion H. reflexivity.
+  - destruct (record_step cf fix_rules ts prev r) as [[p' o']|e] eqn:Er; cbn [bind] in H; [|discriminate].
+    cbn [fst snd] in H. destruct (steps cf fix_rules ts p' run) as [out'|e] eqn:Es; cbn [bind] in H; [|discriminate].
+    inversion H. subst o. clear H. inversion Hwf as [|? ? Hw1 Hw2]. subst.
+    destruct (record_step_spec _ _ _ _ _ _ _ ND Er) as [_ [L [_ [Hp' Hc]]]].
+    destruct (sync_end_spec (end_decl cf) o') as [_ [_ [_ [E4 [E5 _]]]]].
+    cbn [run_no_stale]. rewrite E4, E5. apply andb_true_intro. split.
+    + apply forallb_forall. intros t Ht.
+      destruct (nth_error (calls o') (t_sample t)) as [c'|] eqn:En; [|reflexivity].
+      assert (Hx : exists c, nth_error (calls r) (t_sample t) = Some c).
+      { destruct (nth_error (calls r) (t_sample t)) eqn:E; [eauto|].
+        apply nth_error_None in E. rewrite <- L in E. apply nth_error_None in E. congruence. }
+      destruct Hx as [c Hx]. specialize (Hc _ _ Hx). rewrite (target_of_in _ _ ND Ht) in Hc.
+      assert (Hwc : wf_call c).
+      { rewrite Forall_forall in Hw1. apply Hw1. eapply nth_error_In; eauto. }
+      rewrite Forall_forall in Hdip. specialize (Hdip t Ht).
+      destruct (skip cf ts prev r) as [why|] eqn:Esk.
+      * rewrite Hc in En. inversion En. subst c'.
+        destruct (fix_rm_no_stmt (tag cf) (ps_key o') c Hwc) as [H1 H2].
+        unfold call_no_stale. cbn [rm_phasing fix_rules]. rewrite H1, H2. reflexivity.
+      * destruct Hc as [c2 [Hu Hn]]. rewrite Hn in En. inversion En. subst c2.
+        apply stmts_exact_no_stale with (tg := tag cf).
+        -- rewrite (written_target _ _ _ _ _ (target_of_in _ _ ND Ht)).
+           eapply fix_call_exact; eauto. apply Hwc.
+        -- intros Et _. unfold record_step in Er. rewrite Esk in Er.
+           destruct (update_targets _ _ _ _ _); cbn [bind] in Er; [|discriminate].
+           inversion Er. subst. cbn. rewrite Et. destruct ts; [contradiction|reflexivity].
+    + rewrite <- Hp'. apply IH; assumption.
+Qed.
+
+Lemma steps_length cf ru ts prev run o : steps cf ru ts prev run = Ok o -> length o = length run.
+Proof. intros H. apply steps_forall2 in H. symmetry. eapply Forall2_length; eauto. Qed.
+
+Lemma Forall_take_run {A} (P : vrec -> Prop) c l run tl :
+  take_run c l = (run, tl) -> Forall P l -> Forall P run /\ Forall P tl.
+Proof.
+  intros H F. apply take_run_app in H. subst l. apply Forall_app in F. exact F.
+Qed.
+
+Theorem rephase_no_stale_fixed cf plan input out :
+  mav cf = false -> plan_wf plan -> plan_diploid plan -> wf_input input ->
+  map fst plan = runs input -> phase_writer cf fix_rules plan input = Ok out ->
+  file_no_stale fix_guard cf plan input out = true.
+Proof.
+  intros Hmav W D Wf Hp H. rewrite phase_writer_simple in H by exact Hp. clear Hp.
+  revert input out Wf H. induction plan as [|[c ts] more IH]; intros l out Wf H; [reflexivity|].
+  cbn [simple file_no_stale] in *. inversion W as [|? ? W1 W2]. inversion D as [|? ? D1 D2]. subst.
+  destruct (take_run c l) as [run tl] eqn:Et.
+  destruct (steps cf fix_rules ts None run) as [o|e] eqn:Es; cbn [bind] in H; [|discriminate].
+  destruct (simple cf fix_rules more tl) as [out'|e] eqn:Em; cbn [bind] in H; [|discriminate].
+  inversion H. subst out. clear H.
+  destruct (Forall_take_run _ _ _ _ _ Et Wf) as [F1 F2].
+  pose proof (steps_length _ _ _ _ _ _ Es) as Hl.
+  rewrite <- Hl, firstn_app, Nat.sub_diag, firstn_all, firstn_O, app_nil_r.
+  rewrite skipn_app, Nat.sub_diag, skipn_all, skipn_O. cbn [app].
+  apply andb_true_intro. split.
+  - apply steps_no_stale; assumption.
+  - apply IH; assumption.
+Qed.
